@@ -85,7 +85,12 @@ func ringReplay(in json.RawMessage, res *vh.Result) error {
 
 func replayRing(bi int, beh []ringState, res *vh.Result) {
 	q := centrifuge.VerifWNewQueue(beh[0].InitCap)
-	defer q.Close() // stops a long-armed shrink timer
+	poisoned := false // a panic inside the queue leaves its mutex locked: never touch that queue again
+	defer func() {
+		if !poisoned {
+			q.Close() // stops a long-armed shrink timer
+		}
+	}()
 	var ops []any
 	completed := 1
 	grew, shrankLive, wrapped := false, false, false
@@ -171,6 +176,7 @@ func replayRing(bi int, beh []ringState, res *vh.Result) {
 			return nil
 		}()
 		if panicked != nil {
+			poisoned = true
 			fail("ring:panic:"+act, fmt.Sprintf("%s panicked: %v (the model returns normally)", act, panicked))
 			break
 		}
